@@ -403,6 +403,43 @@ def run(P, R):
         ('SynchronizationOptions.TIMEOUT in self.synchro_options', True) in {tuple(f) for f in fm.at(asg[0])}
     R.check(r6, ok, 'TIMEOUT forces supvisors_failure_strategy to CONTINUE', 'consistency|TIMEOUT', u.loc(),
             'check_options does not force CONTINUE under TIMEOUT')
+    # the index of a '#' application is the WHOLE trailing number of its name: group 1 of the regular expression captures
+    # one or more digits (regex syntax tree: a repetition of digits INSIDE the group)
+    import re as _re
+    ch = P.unit('ApplicationRules.check_hash_identifiers')
+    pats = []
+    for n in ast.walk(ch.node):
+        if isinstance(n, ast.Call) and call_text(n).startswith('re.') and n.args and isinstance(n.args[0], ast.Constant):
+            pats.append(n.args[0].value)
+    for k, (ann, v) in ch.cls.cattrs.items():
+        if isinstance(v, ast.Call) and call_text(v) == 're.compile' and v.args and isinstance(v.args[0], ast.Constant) \
+                and any(isinstance(x, ast.Attribute) and x.attr == k for x in ast.walk(ch.node)):
+            pats.append(v.args[0].value)
+
+    def group1_is_digits_plus(pat):
+        try:
+            tree = _re._parser.parse(pat)
+        except Exception:
+            return False
+        for op, av in tree:
+            if str(op) == 'SUBPATTERN' and av[0] == 1:
+                inner = list(av[3])
+                return len(inner) == 1 and str(inner[0][0]) == 'MAX_REPEAT' and inner[0][1][0] >= 1 and \
+                    inner[0][1][1] > 1 and 'CATEGORY_DIGIT' in str(list(inner[0][1][2]))
+        return False
+    ok = len(pats) == 1 and group1_is_digits_plus(pats[0]) and pats[0].endswith('$')
+    R.check(r4, ok, "the application index of '#' is the whole trailing number of the name", 'hash|index-regex', ch.loc(),
+            'check_hash_identifiers extracts the index with %s: group 1 does not capture the whole trailing number '
+            '(app_12 is placed like app_2)' % pats)
+    # a multicast group is in 224.0.0.0 - 239.255.255.255: first byte bounded on BOTH sides
+    mc = P.unit('SupvisorsOptions._check_multicast_address')
+    first = [c for c in own_nodes(mc.node) if isinstance(c, ast.Call) and call_text(c).endswith('to_integer')
+             and c.args and closed_text(mc, c.args[0]) == "value.split('.')[0]"]
+    ok = len(first) == 1 and len(first[0].args) >= 3 and ast.unparse(first[0].args[2]) == '(224, 239)'
+    R.check(r5, ok, 'the first byte of a multicast group is in [224 ; 239]', 'options|interval|multicast-first-byte',
+            mc.loc(), '_check_multicast_address bounds the first byte with %s (expected to_integer(.., (224, 239))): an '
+            'address above 239.255.255.255 is accepted and discovery mode is switched on' %
+            [ast.unparse(c)[:80] for c in first])
     R.assume('XSD semantics, longest-match on real overlapping patterns beyond R2, and the "#"/"@" arithmetic are NOT '
              'decided. Documented *defaults* are not used as an oracle (docs say stats_collecting_period defaults to 10, '
              'the code to 5: a documentation slip, listed here as context).')
